@@ -5,7 +5,9 @@ package main
 // customizer (+EnableFormatValidation, an option that has no effect on value validation), IsMatching and the typed
 // IsMatchingJSON* helpers; under the request/response readings and with DefaultsSet (default injection: the value is
 // mutated, each mode runs on its own deep copy and the value AFTER validation is observed). Every returned *SchemaError
-// is inspected (SchemaField, JSONPointer(), Value, Reason) and located in the value as the caller finds it afterwards.
+// is inspected (SchemaField, JSONPointer(), Value, Reason) and located in the value as the caller finds it afterwards;
+// it is then observed again (JSONPointer, Error, Unwrap, JSONPointer): the error is an object the caller keeps, every
+// observation must show the same pointer (model: KinModel/C12/ErrObject.lean).
 // The same observation (with reason texts) serves C19.
 
 import (
@@ -27,7 +29,8 @@ func init() {
 		Rule: "the schema × value space of C01 (exhaustive over keyword atoms and compositions, string-length and discriminator families, plus the seeded random stream) and the default-injection family " +
 			"(12 object schemas with property defaults — valid, schema-violating, container, nested, read/write-only — alone, under not/items/additionalProperties/properties and in pairs under allOf/anyOf/oneOf, × 19 values); each case validated in seven ways " +
 			"(default, FailFast, MultiErrors, FailFast+MultiErrors, message customizer, IsMatching, typed IsMatchingJSON*); a schema with `default` also with DefaultsSet as request / response / plain (value after validation compared per mode); " +
-			"every *SchemaError returned directly or inside the MultiError is compared with the model's (SchemaField, JSON pointer, quoted value, order) and its pointer is resolved in the value after validation. " +
+			"every *SchemaError returned directly or inside the MultiError is compared with the model's (SchemaField, JSON pointer, quoted value, order) and its pointer is resolved in the value after validation; " +
+			"each is then observed three more times (JSONPointer, the path printed by Error, JSONPointer again) and every observation must show the same, located pointer. " +
 			"A family of Go values outside JSON (NaN, ±Inf at depth 0–2) is compared mode against mode only. Non-trivial = the schema has at least one keyword.",
 		Exhaustive: true,
 		Gen:        genC12,
@@ -168,25 +171,77 @@ func describeErr(err error, input any) map[string]any {
 	if !ok {
 		return map[string]any{"field": "<not a SchemaError>", "located": true}
 	}
-	ptr := se.JSONPointer()
-	if ptr == nil {
-		ptr = []string{}
-	}
+	// every observed pointer is snapshotted at once: a later observation must not be able to change what was seen before
+	ptr := append([]string{}, se.JSONPointer()...)
 	d := map[string]any{"field": se.SchemaField, "pointer": ptr}
 	hasValue := se.Value != nil
 	if hasValue {
 		d["value"] = canonValue(se.Value)
 	}
-	located := false
-	if found, ok := resolvePointer(input, ptr); ok {
-		located = !hasValue || hx.Canon(canonValue(found)) == hx.Canon(canonValue(se.Value))
-	} else if se.SchemaField == "required" && len(ptr) > 0 {
-		if found, ok := resolvePointer(input, ptr[:len(ptr)-1]); ok {
-			located = hasValue && hx.Canon(canonValue(found)) == hx.Canon(canonValue(se.Value))
+	locatedAt := func(ptr []string) bool {
+		if found, ok := resolvePointer(input, ptr); ok {
+			return !hasValue || hx.Canon(canonValue(found)) == hx.Canon(canonValue(se.Value))
+		} else if se.SchemaField == "required" && len(ptr) > 0 {
+			if found, ok := resolvePointer(input, ptr[:len(ptr)-1]); ok {
+				return hasValue && hx.Canon(canonValue(found)) == hx.Canon(canonValue(se.Value))
+			}
 		}
+		return false
 	}
+	located := locatedAt(ptr)
+	// the error is an object the caller keeps: observe it again (the model's `reobsSeq`: JSONPointer, Error, Unwrap,
+	// JSONPointer) — every observation must show the same pointer, and the property's second sentence must hold for each
+	reobs := []any{}
+	if len(ptr) > 0 {
+		p2 := append([]string{}, se.JSONPointer()...)
+		txt := se.Error()
+		_ = se.Unwrap()
+		p3 := append([]string{}, se.JSONPointer()...)
+		for _, p := range [][]string{p2, c12ErrorTextPath(txt, ptr), p3} {
+			if p == nil {
+				p = []string{}
+			}
+			reobs = append(reobs, p)
+			located = located && locatedAt(p)
+		}
+	} else {
+		reobs = append(reobs, []string{}, []string{}, []string{})
+	}
+	d["reobs"] = reobs
 	d["located"] = located
 	return d
+}
+
+// c12ErrorTextPath: the path printed by (*SchemaError).Error() — `Error at "/a/b": …`. Tokens are printed verbatim (a key
+// may contain '/' or '"'), so the text is matched against the rendering of the first pointer seen; where it differs the
+// printed prefix itself is returned as a one-token path (it will not resolve).
+func c12ErrorTextPath(txt string, first []string) []string {
+	want := `Error at "`
+	for _, t := range first {
+		want += "/" + t
+	}
+	want += `": `
+	if len(txt) >= len(want) && txt[:len(want)] == want {
+		return first
+	}
+	if len(txt) > 80 {
+		txt = txt[:80]
+	}
+	return []string{"<Error() text: " + txt + ">"}
+}
+
+// c12ReobsKeys: per error "pointer => pointers of the further observations"
+func c12ReobsKeys(v any) map[string]bool {
+	out := map[string]bool{}
+	m, _ := v.(map[string]any)
+	for _, e := range jlist(m["errs"]) {
+		if em, ok := e.(map[string]any); ok {
+			if _, has := em["reobs"]; has {
+				out[hx.Canon(em["pointer"])+" => "+hx.Canon(em["reobs"])] = true
+			}
+		}
+	}
+	return out
 }
 
 func modeObs(err error, after any, withAfter bool) map[string]any {
@@ -366,6 +421,13 @@ func cmpC12(c hx.Case, impl any, reply map[string]any) hx.Verdict {
 			if !sameStrs(errKeys(obs[mode]), errKeys(mm), ordered) {
 				v.IM = false
 				v.Detail += fmt.Sprintf(" | mode %s errors: impl %v model %v", mode, errKeys(obs[mode]), errKeys(mm))
+			}
+			mk := c12ReobsKeys(mm)
+			for k := range c12ReobsKeys(obs[mode]) {
+				if !mk[k] {
+					v.IM = false
+					v.Detail += fmt.Sprintf(" | mode %s: re-observing the same error (JSONPointer, Error, JSONPointer) shows %s, the model's errors never change", mode, k)
+				}
 			}
 		}
 	}
